@@ -325,13 +325,15 @@ theorem C11_range_order_valid (k : KV) (w : k.WF) : KV.ValidOrder k (KV.rangeOrd
 theorem facts_tie :
     (∀ r : Rec, r.size = Facts.metadataLength + r.key.length + r.val.length) ∧
     Facts.maxKeyLength = 256 ∧
-    (∀ t : Table, needsCompaction t = decide (t.garbage * Facts.maxGarbageRatioDen ≥ t.alloc * Facts.maxGarbageRatioNum)) ∧
+    (∀ t : Table, needsCompaction t = ((Facts.compaction_takes_tables_without_live_entries && t.inuse == 0 && decide (t.garbage > 0)) ||
+        decide (t.garbage * Facts.maxGarbageRatioDen ≥ t.alloc * Facts.maxGarbageRatioNum))) ∧
     Facts.table_put_deletes_existing = true ∧ Facts.table_putraw_deletes_existing = true ∧
     Facts.compaction_skips_readwrite = true ∧ Facts.sweep_unregisters_by_coefficient = false := by
   refine ⟨fun r => by simp [Rec.size, Facts.metadataLength], rfl, ?_, rfl, rfl, rfl, rfl⟩
   intro t
-  simp only [needsCompaction, Facts.maxGarbageRatioDen, Facts.maxGarbageRatioNum]
-  congr 1
+  simp only [needsCompaction, Facts.maxGarbageRatioDen, Facts.maxGarbageRatioNum,
+    Facts.compaction_takes_tables_without_live_entries, Bool.true_and]
+  congr 2
   apply propext
   constructor <;> intro h <;> omega
 
